@@ -224,8 +224,13 @@ class PopenExecutor(concurrent.futures.Executor):
 
         # submitting new futures after join() would be bad,
         # so we make this internal and only call it from shutdown()
+        # take the snapshot under the lock: a concurrent submit() that passed its shutdown check
+        # has then registered its future, so it is waited for as well
+        with self._lock:
+            futures = list(self._futures)
+
         with contextlib.suppress(concurrent.futures.CancelledError):
-            for future in list(self._futures):
+            for future in futures:
                 future.result()
 
 
